@@ -1,5 +1,6 @@
 """Seeded generators of isotherm *contents* (plain python descriptions) and builders of real objects from them.
-Used by C05 (identity), C06 (JSON), C07 (CSV/Excel/AIF)."""
+Used by C05 (identity), C06 (JSON), C07 (CSV/Excel/AIF).
+`content(..., missing=True)` (C06 only; default False = exactly the former draws) adds missing values: see `punch_missing`."""
 import math
 
 from pgv.models import REL_ONLY, make, sample_params
@@ -55,8 +56,10 @@ def metadata(rng, domain="json", n=None):
     return out
 
 
-def content(rng, kind=None, domain="json"):
-    """A plain description: everything needed to build the isotherm by any route."""
+def content(rng, kind=None, domain="json", missing=False):
+    """A plain description: everything needed to build the isotherm by any route.
+    `missing` (default False = the behaviour C05/C07 rely on: same draws from `rng`, no missing cell anywhere): when true, a further
+    step AFTER all the usual draws punches missing values into the content — see `punch_missing`."""
     kind = kind or rng.choice(["base", "point", "point", "model"])
     c = {"kind": kind, "units": units(rng), "meta": metadata(rng, domain),
          "material": rng.choice(["zeolite-X", "MOF-5", "carbon black", "mat_ü"]) if domain == "json" else rng.choice(["zeoliteX", "MOF-5", "carbon"]),
@@ -105,7 +108,87 @@ def content(rng, kind=None, domain="json"):
         c["model"] = {"name": name, "params": sample_params(name, rng), "rmse": rng.uniform(0, 0.1),
                       "pressure_range": sorted([rng.uniform(0.001, 0.1), rng.uniform(0.2, 0.95)]), "loading_range": sorted([rng.uniform(0, 1), rng.uniform(1.1, 9)])}
         c["model_branch"] = "ads"
+    if missing:
+        punch_missing(rng, c, domain)
     return c
+
+
+NAN = float("nan")
+
+
+def punch_missing(rng, c, domain="json"):
+    """Missing values (the part of the data domain that the default generator never reaches).
+    point: NaN cells in extra numeric columns (a quantity not recorded at every point), None cells in text columns, a flag column of
+    bools with gaps, an all-missing column, NaN in pressure / loading (never ALL pressures: see the domain note in props/c06.py);
+    independent of the branch layout drawn before, so every layout meets every kind of gap.
+    model: no fit error / no ranges handed over (the model then carries NaN for them), exact zeros (perfect fit, range starting at 0),
+    a model of the desorption branch.
+    Records what was done under c["missing"] (for signatures and replays)."""
+    done = []
+    if c["kind"] == "point":
+        n = len(c["pressure"])
+        ex = c["extra"]
+
+        def holes(density):
+            if density == "all":
+                return list(range(n))
+            if density == "alternate":
+                return list(range(rng.randint(0, 1), n, 2))
+            if density == "tail":
+                return list(range(rng.randint(0, n - 1), n))
+            return sorted(rng.sample(range(n), rng.randint(1, max(1, n // 3))))
+
+        def density():
+            return rng.choice(["few", "few", "alternate", "tail", "all"])
+        if "enthalpy" not in ex and rng.random() < 0.6:
+            ex["enthalpy"] = [round(rng.uniform(1, 40), 6) for _ in range(n)]
+        if "phase" not in ex and domain == "json" and rng.random() < 0.35:
+            ex["phase"] = [rng.choice(["ads", "des", "x", "1"]) for _ in range(n)]
+        if rng.random() < 0.25:
+            ex["valid"] = [rng.random() < 0.5 for _ in range(n)]
+        for name in list(ex):
+            if rng.random() < 0.75:
+                d = density()
+                hs = holes(d)
+                numeric = name in ("enthalpy", "counter")
+                ex[name] = [(NAN if numeric else None) if i in hs else v for i, v in enumerate(ex[name])]
+                done.append(f"{name}:{d}")
+        if rng.random() < 0.25:
+            hs = holes("few") if n > 1 else []
+            # TODO(candidate defect, unchanged tree): a table whose pressures are ALL missing and whose points are all adsorption is exported
+            # without any branch key and `isotherm_from_json` then raises ValueError (idxmax of an all-NaN column in split_ads_data); kept out
+            # of the generator for every layout: at least one pressure stays
+            hs = hs[:max(0, n - 1)]
+            if hs:
+                c["pressure"] = [NAN if i in hs else v for i, v in enumerate(c["pressure"])]
+                done.append("pressure:few")
+        if rng.random() < 0.25:
+            d = rng.choice(["few", "tail"])
+            hs = holes(d)
+            c["loading"] = [NAN if i in hs else v for i, v in enumerate(c["loading"])]
+            done.append(f"loading:{d}")
+    elif c["kind"] == "model":
+        m = c["model"]
+        r = rng.random()
+        if r < 0.25:
+            m["rmse"] = None
+            done.append("rmse:absent")
+        elif r < 0.45:
+            m["rmse"] = 0.0
+            done.append("rmse:zero")
+        r = rng.random()
+        if r < 0.25:
+            m["pressure_range"] = m["loading_range"] = None
+            done.append("ranges:absent")
+        elif r < 0.5:
+            m["loading_range"] = [0.0, m["loading_range"][1]]
+            m["pressure_range"] = [0.0, m["pressure_range"][1]] if rng.random() < 0.5 else m["pressure_range"]
+            done.append("ranges:zero")
+        if rng.random() < 0.3:
+            c["model_branch"] = "des"              # a model of the desorption branch
+            done.append("model_branch:des")
+    c["missing"] = done
+
 
 
 def build(pg, c, route="default", rng=None):
@@ -124,8 +207,8 @@ def build(pg, c, route="default", rng=None):
     if c["kind"] == "model":
         m = c["model"]
         from pygaps.modelling import get_isotherm_model
-        model = get_isotherm_model(m["name"], parameters={k: np.float64(v) for k, v in m["params"].items()}, rmse=m["rmse"],
-                                   pressure_range=tuple(m["pressure_range"]), loading_range=tuple(m["loading_range"]))
+        opt = {k: (tuple(m[k]) if isinstance(m[k], list) else m[k]) for k in ("rmse", "pressure_range", "loading_range") if m.get(k) is not None}
+        model = get_isotherm_model(m["name"], parameters={k: np.float64(v) for k, v in m["params"].items()}, **opt)
         return pg.ModelIsotherm(model=model, branch=c["model_branch"], **common)
     ps, ls, br = c["pressure"], c["loading"], c["branch"]
     cols = {"pressure": ps, "loading": ls, **c["extra"]}
